@@ -44,7 +44,7 @@ def gen_data(rng):
             s = rng.choice(["Hello, World!", "a", "", "x y", "tab\\tq", "it's", "üé", "A" * rng.randrange(1, 9), "q\\\"w"])
             decls.append((nm, "string", s))
         else:
-            decls.append((nm, "zero", rng.choice([0, 1, 2, 3, 64])))
+            decls.append((nm, "zero", rng.choice([0, 1, 2, 3, 64, 500, 600, 1000])))     # large areas push later variables past 2 KiB (lui carry)
     return decls
 
 
@@ -64,7 +64,8 @@ def gen_abstract(rng, opts=None):
     opts = opts or {}
     decls = gen_data(rng) if opts.get("data", True) else []
     n = opts.get("n") or rng.choice([1, 2, 3, 5, 8, 14])
-    labels = ["loop", "end", "L1", "_skip", "foo", "Bar9", "done", "x_1", "mv2", "lix"]
+    # label names incl. ones spelled like mnemonics / pseudo-instructions / registers (all legal label names)
+    labels = ["loop", "end", "L1", "_skip", "foo", "Bar9", "done", "x_1", "mv2", "lix", "mul", "div", "and", "or", "add", "sub", "lw", "li", "mv", "la", "jal", "sp", "t0", "x5"]
     rng.shuffle(labels)
     labels = labels[:rng.choice([0, 1, 2, 3, 4])]
     if rng.random() < 0.04 and not opts.get("no_reserved"):
